@@ -123,11 +123,13 @@ def case(d):
     k = d.int(0, 9)
     if k == 0:    # a badly named global (the naming rules are where identifier spelling matters most)
         p = family.member_of(d, violating=1.0, ftype="c", opts={"force": ("global",)}, only=("D12",))
+    elif k == 2:  # an operator glued to a parenthesised identifier (is it a cast? that must not depend on how the name is spelled)
+        p = family.member_of(d, violating=1.0, ftype="c", only=("O12",))
     elif k == 1:  # a badly named macro
         p = family.member_of(d, violating=1.0, opts={"force": ("define",)}, only=("P01",))
     else:
         p = family.member_of(d, prefer=("D11", "D12", "F03", "P01", "T06", "T07", "T08", "T09", "D07", "D09"))
-    return p, renaming(d, p, 0.8 if k <= 1 else 0.3)
+    return p, renaming(d, p, 0.8 if k <= 2 else 0.3)
 
 
 def compare(camp, name, a_text, b_text, extra, relation="C18"):
